@@ -146,6 +146,35 @@ def op_update_rank(state: State, a: Dict[str, Any], env: simenv.SimEnv) -> Any:
     return ch
 
 
+@op("replace_source")
+def op_replace_source(state: State, a: Dict[str, Any], env: simenv.SimEnv) -> Any:
+    """The outside world replaces a trace file while the session lives: a newer export of the profiler, a copy that
+    keeps its timestamps (cp -p, rsync -t, a restore from backup). Not an operation of the tool: done with the real
+    file layer. The new document is the old one with one host operator renamed; its modification time is kept, set to
+    the simulated now, or older than before."""
+    path = _abs(state, a["path"])
+    info = read_any(env, path)
+    if not info.get("valid"):
+        return {"skipped": True}
+    doc = info["doc"]
+    evs = doc.get("traceEvents") or []
+    idx = [i for i, e in enumerate(evs) if isinstance(e, dict) and e.get("cat") == "cpu_op" and "dur" in e]
+    if not idx:
+        return {"skipped": True}
+    k = idx[int(a.get("pick", 0)) % len(idx)]
+    evs[k]["name"] = str(evs[k]["name"]) + "_v2"
+    old = os.stat(path).st_mtime
+    data = json.dumps(doc).encode()
+    if info.get("is_gzip"):
+        data = gzip.compress(data, mtime=0)
+    with env.real_open(path, "wb") as fh:
+        fh.write(data)
+    mode = a.get("mtime", "keep")
+    t = old if mode == "keep" else (old - 3600.0 if mode == "older" else env._clock_now)
+    env.stamp(path, t)
+    return {"path": a["path"], "doc": doc, "renamed": k}
+
+
 @op("read_trace")
 def op_read_trace(state: State, a: Dict[str, Any], env: simenv.SimEnv) -> Any:
     from hta.common.trace_file import read_trace
